@@ -65,8 +65,9 @@ class Library(object):
         data = load_yaml(path) or {}
         self.files[path] = data
         for inc in (data.get('include') or []):
-            # the loader joins every include with the *library* base path
-            tgt = os.path.join(self.dir, inc)
+            # _Load() takes the directory of the including file as the
+            # base path of its own includes
+            tgt = os.path.join(os.path.dirname(path), inc)
             self.edges.append((self.rel(path), self.rel(tgt)))
             self._walk(tgt, stack + [path])
 
